@@ -157,6 +157,8 @@ type RunOut struct {
 	hist        *contHistory
 	cacheHist   []CRec
 	funcHist    *funcHist
+	memoHist    *memoHist
+	timerHist   *timerHist
 }
 
 // poster is implemented by workloads whose oracles need work outside the bubble
